@@ -1,4 +1,209 @@
-(* C16 — placeholder while the pipeline is brought up; replaced below. *)
+(* C16 — Object cache keeps at most one live instance per id under any interleaving.
+   Only property theorems (closed by [exact]), non-vacuity / refutation examples and [Print Assumptions].
+   Model: Model/OCache.v (labelled transition system of app/ocache, REPAIRED behaviour = cfg [fixed]);
+   proofs: Proofs/OCacheProofs.v (invariant), Proofs/OCacheSim.v (simulation with the monitor of spec_C16),
+   Proofs/OCacheCorollaries.v.
+
+   A schedule is any list of (thread, action) labels; [run fixed init ls = Some s] says the schedule ls is
+   executable from the empty cache (any number of threads, ids, calls; thread programs are whatever calls the
+   schedule starts on idle threads).  [obs s] is the harness-visible trace of the run. *)
 From Coq Require Import List NArith Bool.
 Import ListNotations.
-From AnySync Require Import Model.OCache.
+From AnySync Require Import Model.OCache Proofs.OCacheProofs Proofs.OCacheSim Proofs.OCacheAccept
+  Proofs.OCacheCorollaries Proofs.OCacheLive.
+Open Scope N_scope.
+
+(* The whole property as the executable trace predicate that the correspondence check also evaluates on every
+   OBSERVED trace of the real cache: single live instance per id, load start only when no live instance and no
+   other load of the id, returned instances were created for that id, no double close, nothing returned that
+   was closed before the call started, result shapes, and none left open after Close() returned with all
+   calls finished. *)
+Theorem c16_model_satisfies_spec : forall ls s, run fixed init ls = Some s -> spec_C16 (obs s) = true.
+Proof. exact model_satisfies_spec. Qed.
+Print Assumptions c16_model_satisfies_spec.
+
+(* No step dereferences an absent value (e.value.Close() / e.value.TryClose() on nil). *)
+Theorem c16_no_panic : forall ls s, run fixed init ls = Some s -> panicked s = false.
+Proof. exact no_panic. Qed.
+Print Assumptions c16_no_panic.
+
+(* At most one live instance per id: two entries that hold an instance whose close has not finished and
+   that belong to the same id are the same entry (and the same instance). *)
+Theorem c16_single_live : forall ls s id r1 n1 r2 n2,
+  run fixed init ls = Some s -> live_in s r1 id n1 -> live_in s r2 id n2 -> r1 = r2 /\ n1 = n2.
+Proof. exact single_live. Qed.
+Print Assumptions c16_single_live.
+
+(* A load of id is in flight (between load start and load end) only while no instance of id is live ... *)
+Theorem c16_load_only_when_none_live : forall ls s t id r rt r' n,
+  run fixed init ls = Some s -> threads s t = GInLoad id r rt -> ~ live_in s r' id n.
+Proof. exact load_excludes_live. Qed.
+Print Assumptions c16_load_only_when_none_live.
+
+(* ... and loads of one id never overlap (single flight). *)
+Theorem c16_single_flight : forall ls s t t' id r rt r' rt',
+  run fixed init ls = Some s -> threads s t = GInLoad id r rt -> threads s t' = GInLoad id r' rt' -> t = t'.
+Proof. exact single_flight. Qed.
+Print Assumptions c16_single_flight.
+
+(* Every instance about to be handed to a caller sits in an entry whose load has finished successfully
+   (or that was Added). *)
+Theorem c16_returned_is_loaded : forall ls s t n,
+  run fixed init ls = Some s -> threads s t = PRet (RVal n) ->
+  exists r e, heap s r = Some e /\ e_value e = Some n /\ e_loaddone e = true /\ e_failed e = false.
+Proof. exact returned_is_loaded. Qed.
+Print Assumptions c16_returned_is_loaded.
+
+(* No instance is closed twice: once Close() of n has been entered (or has returned, or TryClose() of n has
+   returned true), neither Close() nor TryClose() of n is entered again, by any thread. *)
+Theorem c16_no_double_close : forall ls s l1 l2 t n e,
+  run fixed init ls = Some s -> obs s = l1 ++ e :: l2 ->
+  (e = ECloseEntry t n \/ e = ECloseExit t n \/ e = ETryExit t n true) ->
+  forall t', ~ In (ECloseEntry t' n) l2 /\ ~ In (ETryEntry t' n) l2.
+Proof. exact no_double_close. Qed.
+Print Assumptions c16_no_double_close.
+
+(* Close() / TryClose() of one entry is in progress in at most one thread. *)
+Theorem c16_single_closer : forall ls s t t' r n r',
+  run fixed init ls = Some s ->
+  owner (threads s t) = Some (r, n) -> owner (threads s t') = Some (r', n) -> t = t' \/ r <> r'.
+Proof. exact single_closer. Qed.
+Print Assumptions c16_single_closer.
+
+(* None is left open once the cache has shut down: closed flag set and every call returned
+   => every entry that ever received an instance is in state closed (its Close/TryClose has returned). *)
+Theorem c16_none_left_open : forall ls s r e n,
+  run fixed init ls = Some s -> closed s = true -> (forall t, threads s t = Idle) ->
+  heap s r = Some e -> e_value e = Some n -> e_state e = SClosed.
+Proof. exact none_left_open. Qed.
+Print Assumptions c16_none_left_open.
+
+(* A lookup that starts after a removal completed never returns the removed instance: if thread t is about to
+   return instance n from a call that started at trace position st, a close end of n, if any, is at a later
+   position (positions = monitor clock = number of events so far, [mon_clock_length]). *)
+Theorem c16_no_stale_after_remove : forall ls s m t n c st,
+  run fixed init ls = Some s -> mon_run mon0 (obs s) = Some m ->
+  threads s t = PRet (RVal n) -> m_call m t = Some (c, st) ->
+  forall ce, m_cend m n = Some ce -> st < ce.
+Proof. exact no_stale_after_remove. Qed.
+Print Assumptions c16_no_stale_after_remove.
+
+(* The acceptance function of the correspondence check is sound: an observed trace (macro steps of the
+   schedule-forcing harness) that [accept] accepts IS the observable trace of a schedule of the model, hence it
+   satisfies the property. *)
+Theorem c16_accepted_is_model_trace : forall n steps,
+  accept n steps = true ->
+  exists ls s, run fixed init ls = Some s /\ obs s = concat steps /\ panicked s = false.
+Proof. exact accept_sound. Qed.
+Print Assumptions c16_accepted_is_model_trace.
+
+Theorem c16_accepted_satisfies_spec : forall n steps, accept n steps = true -> spec_C16 (concat steps) = true.
+Proof. exact accepted_satisfies_spec. Qed.
+Print Assumptions c16_accepted_satisfies_spec.
+
+(* No global deadlock: whenever some call is unfinished, some step is possible — a thread's own move, or the
+   return of a harness-owned callback that is in progress (those return labels are always enabled in the model:
+   "LoadFunc / Close / TryClose eventually return").  Every awaited channel has a live owner: a thread blocked on
+   a close channel waits for a thread inside Close/TryClose, a thread blocked on a load channel waits for the
+   thread that is loading.  (Per-thread progress under fairness is NOT proved.) *)
+Theorem c16_no_deadlock : forall ls s t,
+  run fixed init ls = Some s -> threads s t <> Idle -> exists l s', step fixed s l = Some s'.
+Proof. exact progress. Qed.
+Print Assumptions c16_no_deadlock.
+
+(* ---------------------------------------------------------------- non-vacuity *)
+
+(* Get(1) loads instance 1; Remove(1) closes it while a second Get(1) waits on the close channel; the second
+   Get then reloads (instance 2). *)
+Definition sched_reload : list (N * act) :=
+  [ (0, ACall (CGet 1)); (0, AStep); (0, AStep); (0, AStep); (0, ALoadEnd (Some 1)); (0, AStep);
+    (1, ACall (CRemove 1)); (1, AStep); (1, AStep); (1, AStep);
+    (0, ACall (CGet 1)); (0, AStep); (0, AStep);
+    (1, ACloseExit); (1, AStep);
+    (0, AStep); (0, AStep); (0, AStep); (0, AStep); (0, ALoadEnd (Some 2)); (0, AStep) ].
+
+Example c16_run_nonvacuous :
+  option_map obs (run fixed init sched_reload) =
+  Some [ ECall 0 (CGet 1); ELoadStart 0 1; ELoadEnd 0 1 (Some 1); ERet 0 (RVal 1);
+         ECall 1 (CRemove 1); ECloseEntry 1 1;
+         ECall 0 (CGet 1);
+         ECloseExit 1 1; ERet 1 (ROk true);
+         ELoadStart 0 1; ELoadEnd 0 1 (Some 2); ERet 0 (RVal 2) ].
+Proof. vm_compute. reflexivity. Qed.
+
+(* the hypotheses of c16_single_live / c16_none_left_open are satisfiable *)
+Example c16_live_nonvacuous :
+  exists s, run fixed init sched_reload = Some s /\ live_in s 1 1 2 /\ ~ live_in s 0 1 1.
+Proof.
+  destruct (run fixed init sched_reload) as [s|] eqn:E; [| vm_compute in E; discriminate].
+  exists s. split; [reflexivity|]. vm_compute in E. inversion E; subst; clear E. split.
+  - eexists. repeat split; simpl; try reflexivity. discriminate.
+  - intros [e [Hr [_ [_ Hst]]]]. simpl in Hr. inversion Hr; subst. apply Hst. reflexivity.
+Qed.
+
+(* spec_C16 is not trivially true: it rejects a second load while an instance is live, a double close, a
+   stale return and an instance left open after Close *)
+Example c16_spec_rejects_second_load :
+  spec_C16 [ECall 0 (CGet 1); ELoadStart 0 1; ELoadEnd 0 1 (Some 1); ERet 0 (RVal 1);
+            ECall 1 (CGet 1); ELoadStart 1 1] = false.
+Proof. vm_compute. reflexivity. Qed.
+Example c16_spec_rejects_double_close :
+  spec_C16 [ECall 0 (CAdd 1 1); ERet 0 RNil; ECall 0 (CRemove 1); ECloseEntry 0 1;
+            ECall 1 (CTryRemove 1); ETryEntry 1 1] = false.
+Proof. vm_compute. reflexivity. Qed.
+Example c16_spec_rejects_stale :
+  spec_C16 [ECall 0 (CAdd 1 1); ERet 0 RNil; ECall 0 (CRemove 1); ECloseEntry 0 1; ECloseExit 0 1;
+            ERet 0 (ROk true); ECall 1 (CGet 1); ERet 1 (RVal 1)] = false.
+Proof. vm_compute. reflexivity. Qed.
+Example c16_spec_rejects_left_open :
+  spec_C16 [ECall 0 (CAdd 1 1); ERet 0 RNil; ECall 0 CClose; ERet 0 RNil] = false.
+Proof. vm_compute. reflexivity. Qed.
+
+(* the acceptance function used by the correspondence check accepts the observed form of the run above *)
+Example c16_accept_nonvacuous :
+  accept 2 [ [ECall 0 (CGet 1); ELoadStart 0 1]; [ELoadEnd 0 1 (Some 1); ERet 0 (RVal 1)];
+             [ECall 1 (CRemove 1); ECloseEntry 1 1]; [ECall 0 (CGet 1)];
+             [ECloseExit 1 1; ERet 1 (ROk true); ELoadStart 0 1]; [ELoadEnd 0 1 (Some 2); ERet 0 (RVal 2)] ] = true.
+Proof. vm_compute. reflexivity. Qed.
+
+(* an observed trace (thorough run, real cache) on which the committing acceptance fails and the backtracking
+   search is needed: Close() blocks on one of two entries and only later events tell which one it took first *)
+Example c16_accept_needs_search :
+  let tr := [[ECall 2 CGC; ERet 2 RNil]; [ECall 0 CGC; ERet 0 RNil]; [ECall 1 (CGet 2); ELoadStart 1 2];
+             [ECall 3 (CGet 1); ELoadStart 3 1]; [ELoadEnd 1 2 (Some 1); ERet 1 (RVal 1)];
+             [ECall 0 (CRemoveSame 1 0); ERet 0 RErrNotExists]; [ELoadEnd 3 1 None; ERet 3 RErrLoad];
+             [ECall 2 CGC; ETryEntry 2 1]; [ECall 3 (CGet 1); ELoadStart 3 1]; [ECall 0 CClose];
+             [ELoadEnd 3 1 (Some 2); ERet 3 (RVal 2); ECloseEntry 0 2]; [ECall 3 (CRemoveSame 1 2); ERet 3 RErrClosed];
+             [ECloseExit 0 2]; [ECall 1 (CGet 1); ERet 1 RErrClosed]; [ECall 1 (CTryRemove 1); ERet 1 RErrClosed];
+             [ECall 3 (CTryRemove 1); ERet 3 RErrClosed]; [ETryExit 2 1 false; ERet 2 RNil; ECloseEntry 0 1];
+             [ECall 2 (CAdd 2 3); ERet 2 RErrClosed]; [ECall 3 (CPick 1); ERet 3 RErrNotExists];
+             [ECloseExit 0 1; ERet 0 RNil]; [ECall 2 (CPick 1); ERet 2 RErrNotExists];
+             [ECall 2 (CPick 1); ERet 2 RErrNotExists]] in
+  accept_fast 4 tr = false /\ accept 4 tr = true /\ spec_C16 (concat tr) = true.
+Proof. vm_compute. repeat split. Qed.
+
+(* ---------------------------------------------------------------- the ORIGINAL code (cfg [legacy]) violates the property *)
+
+(* F8: TryRemove(id) while the load of id is in flight: the entry is in state loading with a nil value;
+   TryRemove moves it to closing and calls value.TryClose -> nil dereference. *)
+Example c16_no_panic_legacy_refuted :
+  exists ls s, run legacy init ls = Some s /\ panicked s = true.
+Proof.
+  exists [ (0, ACall (CGet 1)); (0, AStep); (0, AStep); (0, AStep);
+           (1, ACall (CTryRemove 1)); (1, AStep); (1, AStep) ].
+  eexists. split; [vm_compute; reflexivity | reflexivity].
+Qed.
+
+(* F17: Add after Close succeeds; the added instance is never closed. *)
+Example c16_none_left_open_legacy_refuted :
+  exists ls s, run (mkCfg true false) init ls = Some s /\ spec_C16 (obs s) = false /\
+               closed s = true /\ (forall t, threads s t = Idle) /\
+               exists r e n, heap s r = Some e /\ e_value e = Some n /\ e_state e = SActive.
+Proof.
+  exists [ (0, ACall CClose); (0, AStep); (0, AStep); (0, AStep);
+           (1, ACall (CAdd 1 1)); (1, AStep) ].
+  eexists. split; [vm_compute; reflexivity|]. split; [vm_compute; reflexivity|]. split; [reflexivity|].
+  split.
+  - intros t. destruct t as [|[p|p|]]; reflexivity.
+  - exists 0, (new_active 1 1), 1. repeat split.
+Qed.
